@@ -185,6 +185,13 @@ def build_go(br):
     rc, out, err = sh(["go", "build", "-o", os.path.join(BIN, "frugal"), "."], cwd=REPO, env=GOENV, timeout=900)
     br.frugal_log = out + err
     br.frugal_ok = rc == 0
+    # the same compiler with the verif tag (compiler/globals/verif_now.go: the clock reading as an input); best effort
+    rc2, _, _ = sh(["go", "build", "-tags", "verif", "-o", os.path.join(BIN, "frugal_verif"), "."], cwd=REPO, env=GOENV, timeout=900)
+    if rc2 != 0:
+        try:
+            os.remove(os.path.join(BIN, "frugal_verif"))
+        except OSError:
+            pass
     t = os.path.join(VERIF, "translator")
     if os.path.isdir(t):
         rc, out, err = sh(["go", "build", "-o", os.path.join(BIN, "translator"), "."], cwd=t, env=GOENV, timeout=600)
